@@ -65,6 +65,7 @@ def run(tier: str) -> int:
             {"Family": "bounds", "MaxLen": 3, "Starts": "zero", "Sample": 200, "workers": 3, "opt_cfgs": small, "style": "min"},
             {"Family": "sqesc", "MaxLen": 3, "Starts": "zero", "Sample": 300, "workers": 3, "opt_cfgs": small, "style": "min"},
             {"Family": "sqws", "MaxLen": 4, "Starts": "zero", "Sample": 0, "workers": 3, "opt_cfgs": small, "style": "min"},
+            {"Family": "sqcls", "MaxLen": 3, "Starts": "zero", "Sample": 250, "workers": 3, "opt_cfgs": small, "style": "min"},
         ]
     else:
         fams = [
@@ -87,6 +88,7 @@ def run(tier: str) -> int:
             {"Family": "bounds", "MaxLen": 3, "Starts": "zero", "Sample": 0, "workers": 8, "opt_cfgs": small, "style": "min"},
             {"Family": "sqesc", "MaxLen": 3, "Starts": "zero", "Sample": 0, "workers": 8, "opt_cfgs": small, "style": "min"},
             {"Family": "sqws", "MaxLen": 4, "Starts": "zero", "Sample": 0, "workers": 8, "opt_cfgs": small, "style": "min"},
+            {"Family": "sqcls", "MaxLen": 4, "Starts": "zero", "Sample": 0, "workers": 8, "opt_cfgs": small, "style": "min"},
         ]
     total = 0
     for f in fams:
